@@ -137,11 +137,13 @@ def setup():
         def handle(self, request_info, body, context):
             n = request_info.headers.get("Content-Length")
             data = b""
-            if n is not None and n.strip().isdigit():
+            if self.spec.get("read_body") is False:
+                data = None     # a handler that answers without looking at the request body
+            elif n is not None and n.strip().isdigit():
                 # (capped: an absurd announced length must not make the scripted handler itself raise)
                 data = body.read(min(int(n), 1 << 24))
             self.log.add(["handle", self.index, request_info.uri, context, request_info.method,
-                          [[k, v] for k, v in request_info.headers.items()], data.hex(),
+                          [[k, v] for k, v in request_info.headers.items()], None if data is None else data.hex(),
                           list(request_info.client_address), list(request_info.server_address)])
             res = self.spec["result"]
             if res["kind"] == "raised":
@@ -398,7 +400,10 @@ def do_request(host, port, req, deadline, hold=None, stuck_probe=None):
         out = {"refused": False, "raw": raw.hex(), "eof": eof, "reset": reset, "client": local, "server": peer,
                "send_error": send_error}
         if stuck and not eof and not reset:
-            out.update(no_response=True, evidence=stuck[-1])
+            if raw:
+                out.update(kept_open=True, evidence=stuck[-1])      # answered, but the connection is not closed
+            else:
+                out.update(no_response=True, evidence=stuck[-1])
         return out
     finally:
         if hold:
@@ -423,7 +428,10 @@ def _blocked_workers(baseline):
         while f is not None:
             names.append(f.f_code.co_name)
             f = f.f_back
-        if "_delegate_request" in names and names and names[0] in ("readinto", "recv_into", "read", "readline", "peek"):
+        if names and names[0] in ("readinto", "recv_into", "read", "readline", "peek") and (
+                "_delegate_request" in names or "handle_one_request" in names):
+            # inside the request handling (waiting for more of THIS request), or back in the request loop waiting for a
+            # NEXT request on a connection that the server was expected to close
             out[t.name] = names[:10]
     return out
 
@@ -733,11 +741,20 @@ def run_lifecycle(case):
     baseline = set(threading.enumerate())
     srv = _state["HttpServer"](handlers, bind, port)
     out = {"port": port}
+    held = []
     try:
         if case["mode"] == "seq":
             steps = []
             for op in case["steps"]:
                 exc, stuck_stacks = guarded_lifecycle_call(srv, op, bind, port)
+                if op == "start" and exc is None and case.get("idle_client") and not held:
+                    # a client connects, sends half a request and stays connected for the rest of the history:
+                    # stop() must still return, release the port and end the serving thread
+                    c = connect(client_host_for(bind), port, deadline)
+                    if c is not None:
+                        c.sendall(b"GET /idle HTTP/1.1\r\nHost: x\r\n")
+                        held.append(c)
+                        time.sleep(0.05)
                 if stuck_stacks is not None:
                     out["deadlock"] = True
                     out["stacks"] = stuck_stacks
@@ -745,7 +762,8 @@ def run_lifecycle(case):
                     out["exc_logs"] = _state["collector"].take()
                     return out
                 p = probe(port, bind, baseline, exc is not None, deadline)
-                wait_request_threads_done(baseline, deadline)
+                if not held:
+                    wait_request_threads_done(baseline, deadline)
                 steps.append({"op": op, "exc": exc, "probe": p})
             out["steps"] = steps
         else:
@@ -795,6 +813,23 @@ def run_lifecycle(case):
             out["probe"] = probe(port, bind, baseline, any_raised, deadline)
             wait_request_threads_done(baseline, deadline)
     finally:
+        for c in held:
+            # leave politely (half-close, read what the server still sends): a client that resets the connection makes
+            # the server log a BrokenPipeError, which is that client's doing and not part of this history
+            try:
+                c.shutdown(socket.SHUT_WR)
+                c.settimeout(2.0)
+                while c.recv(65536):
+                    pass
+            except Exception:  # noqa
+                pass
+            try:
+                c.close()
+            except Exception:  # noqa
+                pass
+        if held:
+            time.sleep(0.1)
+
         def _final_stop():
             try:
                 srv.stop()
